@@ -22,7 +22,8 @@ Inductive pexp :=
 | XHashLength                    (* Policy::hash_length *)
 | XHash (e : pexp)               (* Policy::hash_type_id(e) *)
 | XMax (a b : pexp)
-| XAdd (a b : pexp).
+| XAdd (a b : pexp)
+| XIfFacet (f : pfacet) (a b : pexp).   (* a helper that returns a under `if constexpr (has_facet<Policy, f>)`, b otherwise *)
 
 Inductive pstmt :=
 | QSkip
@@ -97,6 +98,7 @@ Section Interp.
           end)
     | XMax a b => pbind (xeval cur s a) (fun x => pbind (xeval cur s b) (fun y => POk (N.max x y)))
     | XAdd a b => pbind (xeval cur s a) (fun x => pbind (xeval cur s b) (fun y => POk (x + y)))
+    | XIfFacet f a b => if has f then xeval cur s a else xeval cur s b
     end.
 
   Definition with_size (s : pstate) (x : N) := mk_pstate x (q_index s) (q_hst s) (q_attempts s) (q_vptrs s) (q_ivptrs s) (q_map s).
